@@ -20,7 +20,7 @@ CHECKS = {
                      "property's condition-number tolerance.",
                 technique="symbolic execution of rustc MIR into z3; quotient/polynomial normal forms + UF abstraction with sign lemmas, then NRA; native replay", design='4/C03'),
     'C07': dict(text="Bounded model checking by solver: RSI, FastStochastic (scalar/bar), SlowStochastic, MFI in [0,100] and EfficiencyRatio in [0,1] exactly in real arithmetic whenever the "
-                     "reference denominator is non-zero, all positive real prices / valid bars, n<=4 (5), every prefix up to t=2n+3 (3n+3); violations replayed natively with the property's slack.",
+                     "reference denominator is non-zero, all positive real prices / valid bars, n<=4 (5), every prefix up to t=2n+3 (3n+3); violations replayed natively with the property's slack. Plus Kani: ER(2) stays in [0, 1+1e-9] bit-precisely for 6-7 inputs symbolic over alphabets of one-pip prices and 1e5-scale outliers (rounding residue of running totals).",
                 technique="symbolic execution of rustc MIR into z3; UF abstraction with sign/ratio lemmas then NRA; native replay", design='4/C07'),
     'C09': dict(text="Bounded model checking by solver: SD/MAD/TrueRange/ATR >= 0 and no sqrt of a negative value, Minimum <= Maximum, band/exit ordering for every multiplier in [0,1000], "
                      "histogram identities (MACD with symbolic periods), SMA/WMA/EMA inside their hull, for all real inputs, n<=4 (5), t<=2n+3 (3n+3); violations replayed natively. Plus Kani: SD(1,2) and MAD(2) are >= 0 and not NaN for every finite |x|<=1e12 (cancellation included); R families also after a reset.",
@@ -31,7 +31,7 @@ CHECKS = {
                 technique="one-step induction + bounded unrolling by symbolic execution of rustc MIR into z3 (exact reals)", design='4/C13'),
     'C17': dict(text="Bounded model checking by solver: for SMA, WMA, SD, MAD, Min, Max, FastStochastic, BB, CCI (last n) and ROC, ER, MFI (last n+1): an instance fed an arbitrary symbolic prefix "
                      "(<= n+3 inputs, unconstrained magnitude) then a suffix returns exactly the output of a fresh instance fed the suffix only, n<=4 (5); too-short suffixes must be able "
-                     "to differ (witness); violations replayed natively with the property's tolerance. Plus Kani: Minimum/Maximum (FastStochastic n=1) with prefixes of EVERY f64 bit pattern (NaN, inf) of every length 1..n+1 and a finite suffix equal the fresh instance exactly, n<=3 (4).",
+                     "to differ (witness); violations replayed natively with the property's tolerance. Plus Kani: Minimum/Maximum (FastStochastic n=1) with prefixes of EVERY f64 bit pattern (NaN, inf) of every length 1..n+1 and a finite suffix equal the fresh instance exactly, n<=3 (4). ROC/ER prefixes may contain exact zeros (a zero reference price), only the final outputs are compared.",
                 technique="symbolic execution of rustc MIR into z3, two instances with different ring rotation compared; native replay", design='4/C17'),
     'C16': dict(text="Bounded model checking by CBMC on the compiled crate: a symbolic script of up to 7 (9) setter calls (which setter and which value symbolic, every f64 bit pattern incl. NaN/inf/-0.0) "
                      "followed by build(), against a last-value-per-field model: Incomplete iff a field never set, else Invalid iff the six comparisons fail, else Ok with bit-exact getters and an equal clone; "
@@ -48,7 +48,7 @@ CHECKS = {
                      "without byte buffers; bincode itself does not finish in CBMC): for 20 indicators (quick; CE and SlowStochastic only in the thorough tier, not required), n=2 (1..3): checkpoints fresh / full "
                      "window after a wrap / just reset; serialize(deserialize(x)) == serialize(x) for histories of EVERY f64 bit pattern; future outputs of the restored instance bit-equal to the original's "
                      "over n+2 inputs after histories that are symbolic over a 4-value alphabet incl. 1e16 and a non-finite value (add/compare-only indicators) or concrete (the rest); DataItem round trip for every "
-                     "accepted bar. Counterexamples are confirmed natively with the real bincode 1.3.",
+                     "accepted bar. Counterexamples are confirmed natively with the real bincode 1.3. Concrete-history variants end in a non-finite value still inside the window, or consist of zeros only (values that 'is this the default / empty?' guesses get wrong).",
                 technique="Kani/CBMC proof harnesses over the derived serde impls (token-stream format), native confirmation with bincode", design='4/C06', engine='kani',
                 note="Trusted base: Kani 0.68 / CBMC 6.11; the token format stands in for bincode inside CBMC only; the native replay uses real bincode."),
     'C04': dict(text="Bounded model checking by solver: for all 22 indicators, periods n<=3 (4): symbolic history (<= n+2 inputs), reset (also double reset, reset on fresh, two histories), then a "
@@ -59,13 +59,13 @@ CHECKS = {
                      "also zero-volume stretches for MFI/OBV): z3 decides over the MIR (exact reals) which steps have a zero denominator (-> NaN) and that the neutral values are exact (FastStochastic 50, "
                      "CCI/ROC/TrueRange/MAD/SD 0, bands collapsed, SMA/WMA/Min/Max = level); Kani decides bit-precisely that FastStochastic/TrueRange/Min/Max are exactly neutral for every finite "
                      "prefix and every finite level in [1e-300,1e300] and that ROC is exactly 0 on a flat stream for levels symbolic over a seeded 96-value table. Known findings (ER, MFI, RSI(1) NaN; CCI residue) "
-                     "are listed in known_findings.json and re-confirmed natively on every run.",
+                     "are listed in known_findings.json and re-confirmed natively on every run. Families also with a reset between the active prefix and the flat stretch; every step of a flat-from-start stretch counts as degenerate.",
                 technique="symbolic execution of rustc MIR into z3 (zero-denominator feasibility, exact neutral values) + Kani/CBMC harnesses; native replay", design='4/C08'),
     'C11': dict(text="Solver-decided: (R) every constructor executed from MIR with period arguments symbolic over the WHOLE usize range for the allocation-free indicators (EMA, RSI, ATR, MACD, PPO, KC; "
                      "SlowStochastic's EMA period) and every tuple over 0..=4 (0..=8) for windowed ones: no compiler-inserted overflow/bounds assertion can fail, Err(InvalidParameter) iff some period is 0, "
                      "period()/multiplier() return the arguments; Default::default() executed from MIR behaves as new(documented defaults) on a symbolic stream; (K) the same constructor contract "
                      "bit-precisely for every usize tuple and every f64 multiplier (allocation-free) and every period tuple in 0..=16 (64) (windowed). Display text and accessors are compared natively on a sweep "
-                     "incl. 2^31, 2^32, 2^53+1, usize::MAX-1, usize::MAX (formatting is outside both engines).",
+                     "incl. 2^31, 2^32, 2^53+1, usize::MAX-1, usize::MAX (formatting is outside both engines). Display/period()/multiplier() are also compared natively across inputs and a reset (the indicator's whole life).",
                 technique="symbolic execution of rustc MIR into z3 (integers with overflow assertions) + Kani/CBMC harnesses; native confirmation incl. Display", design='4/C11'),
     'C10': dict(text="Bounded model checking by solver: the generic Next<&T> bodies executed from MIR with a bar whose five getters return five INDEPENDENT symbolic reals: equality with Next<f64> on "
                      "close / low / high as documented (13 indicators), one-price bars vs the scalar path (FastStochastic, SlowStochastic, TrueRange, ATR, KeltnerChannel), independence of every field an "
@@ -73,18 +73,18 @@ CHECKS = {
                 technique="symbolic execution of rustc MIR into z3 with an abstract bar type; native replay", design='4/C10'),
     'C15': dict(text="Bounded model checking by solver with the real code on BOTH sides: each composite's next() and, in the same query, separately constructed public parts fed the same symbolic stream and "
                      "combined as documented (BB vs SMA/SD, SlowStochastic vs EMA o FastStochastic, ATR vs EMA o TrueRange, MACD/PPO vs three EMAs, KC vs EMA/ATR, CE vs Min/Max/ATR, CCI vs SMA/MAD of the "
-                     "typical price); EMA periods symbolic for ATR/MACD/KC, n<=4 (5), t=2n+3, also with a reset of composite and parts mid-stream; violations replayed natively (parts wired through the replay binary).",
+                     "typical price); EMA periods symbolic for ATR/MACD/KC, n<=4 (5), t=2n+3, also with a reset of composite and parts mid-stream; violations replayed natively (parts wired through the replay binary). The CCI/BB/SlowStochastic families are repeated in a tiny price unit (prices in [2^-60, 2^-50]) so that an absolute threshold inside a composite shows.",
                 technique="symbolic execution of rustc MIR into z3 (composite vs hand-wired parts); native replay", design='4/C15'),
     'C14': dict(text="Bounded model checking by solver: two instances fed x and c*x (c in {2^-40, 2^40, 1/3, 7, ...}; symbolic c for the polynomial indicators) resp. x and x+d (d symbolic): price-valued "
                      "outputs scale by c (SD and band half-widths through squares), dimensionless ones are unchanged, shifts move SMA/EMA/WMA/Min/Max/band levels by d and leave SD, MAD, TrueRange, ATR, MACD, "
                      "FastStochastic unchanged, Maximum(x) == -Minimum(-x); all positive real prices / valid bars, n<=3 (4), t=2n+2; RSI excluded as in the statement; violations replayed natively with the "
-                     "1e-12 / 1e-9 clauses.",
+                     "1e-12 / 1e-9 clauses. Plus Kani: Maximum(x) == -Minimum(-x) exactly for every finite f64 stream (n<=3 (4)); power-of-two scaling (2^-40, 2^40) bit for bit for SMA/EMA/Min/Max on a 4-value alphabet.",
                 technique="symbolic execution of rustc MIR into z3 (pairs of runs, scaling lemmas for abstracted quotients); native replay", design='4/C14'),
     'C05': dict(text="Bounded model checking by solver: (R) for all 22 indicators, n<=2 (3): history of h in {0,1,n,n+1} symbolic inputs, clone, then original, clone and an unrelated instance stepped "
                      "round-robin with independent symbolic inputs; every instance's outputs equal a sequential replay of its own sequence on a fresh instance (so nothing leaks between instances and "
                      "outputs are a function of the instance's own history); the executor has no global memory, so any static/thread-local access is undecided rather than ignored; (K) bit-precise: "
                      "the same interleaving on a 3-value alphabet for add/compare-only indicators and MAD, and for every f64 the clone's serialized state equals the original's and is untouched by "
-                     "stepping the original. Threads are outside (Kani has no concurrency).",
+                     "stepping the original. Threads are outside (Kani has no concurrency). A native determinism probe (1400 non-dyadic inputs, bit comparison of two instances / clone / interleaved unrelated instance) runs as a sanity pass and confirms hidden process-wide state that R can only report as an unsupported static access; it is not a solver verdict.",
                 technique="symbolic execution of rustc MIR into z3 (interleaved instances vs replays) + Kani/CBMC harnesses; native replay", design='4/C05'),
     'C18': dict(text="(R) symbolic execution of new + 3n+3 x next + reset + next for all 22 indicators, n<=3 (6): no allocating call is reached inside next()/reset() and every owned heap array keeps "
                      "its identity and length (so, step by step, the owned heap is the constructor's allocation: 8*period bytes per window); (K) the real bincode::serialized_size compiled into the "
